@@ -39,7 +39,7 @@ type importerSpec struct {
 }
 
 func amt2(v int) string { return kj.Dec(v, 100) }
-func dmy(z int) string   { return dayToTime(z).Format("02.01.2006") }
+func dmy(z int) string  { return dayToTime(z).Format("02.01.2006") }
 
 func csvBytes(sep rune, recs [][]string) []byte {
 	var b bytes.Buffer
